@@ -235,6 +235,20 @@ func runC08(r *R) {
 		c08Engine(r, sp, conf, files, plans, bound, ctxSig)
 		return
 	}
+	// fault cell: a read of the ammo file fails (for good, or for one Read call) at a drawn offset. A provider that
+	// then delivers fewer items than its bounds say must report the failure: a short delivery that ends as a clean
+	// end of ammo is not "exactly min(limit, passes x entries) items"
+	faultAt := int64(-1)
+	if mf := c08MainFile(files); mf != "" && bound >= 0 && len(files[mf]) > 0 && r.F.Draw(5) == 0 {
+		p, ok := plans[mf]
+		if !ok {
+			p = simfs.NoPlan()
+		}
+		faultAt = faultOffset(r.F, files[mf])
+		p.ReadErrAt = faultAt
+		p.ReadErrOnce = r.F.Draw(3) == 0
+		plans[mf] = p
+	}
 	out := runProvider(r, provRun{Conf: conf, Files: files, Plans: plans, Consumers: sp.Cons, CancelAfter: sp.CancelAt, Stalls: sp.Stalls}, false)
 	for k, v := range out.DiskFired {
 		for i := 0; i < v; i++ {
@@ -262,6 +276,19 @@ func runC08(r *R) {
 			r.Fail("consumers-blocked-after-run-returned/"+ctxSig, "Provider.Run returned %v at %v after %d items (bound %d) but %d of %d consumers are still blocked in Acquire: %s", out.RunErr, out.RunAt, len(out.All), bound, blocked, sp.Cons, out.Sim.Detail)
 		} else {
 			r.Fail("provider-never-finishes/"+ctxSig, "%d items delivered (bound %d, limit %d, passes %d, %d entries); Provider.Run has not returned and %d of %d consumers are blocked: %s", len(out.All), bound, sp.Limit, sp.Passes, entries, blocked, sp.Cons, out.Sim.Detail)
+		}
+		return
+	}
+	if faultAt >= 0 && out.DiskFired["read-eio"]+out.DiskFired["read-eio-transient"] > 0 {
+		r.Note("fault-cell/" + kindSig)
+		r.NonTrivial()
+		got := len(out.All)
+		switch {
+		case got > bound:
+			r.Fail("fault/too-many/"+ctxSig, "%d items delivered with a read error at byte %d, the bound is %d", got, faultAt, bound)
+		case out.NewErr == nil && out.RunErr == nil && got < bound:
+			r.Fail("read-error-swallowed/"+ctxSig, "a read of the ammo file failed at byte %d (transient=%v); the provider was built and Run returned nil, yet only %d of min(limit %d, passes %d x %d entries) = %d items were delivered: the run ends as a clean end of ammo",
+				faultAt, plans[c08MainFile(files)].ReadErrOnce, got, sp.Limit, sp.Passes, entries, bound)
 		}
 		return
 	}
